@@ -39,6 +39,14 @@ func (err withStack) Unwrap() error {
 	return err.inner
 }
 
+// Is makes errors.Is(err, withStack{inner: noError}) succeed for any err that has a withStack in its
+// chain. withStack holds a slice and so is not comparable, which means errors.Is can only ever match
+// it through this method. Only the private probe value used by WithStack matches.
+func (err withStack) Is(target error) bool {
+	t, ok := target.(withStack)
+	return ok && t.inner == noError
+}
+
 var noError = errors.New("no error")
 
 // WithStack returns an error that wraps err and adds the call stack of the call to WithStack to
